@@ -23,16 +23,32 @@ try:
     IO_TABLES3_STATUS = translate_c07_r3.generate(core.REPO, os.path.join(core.COQ, "gen"))
 except Exception as _ex:
     IO_TABLES3_STATUS = "unparsed generator-failed: %s" % str(_ex)[:200]
+# round 4: coq/gen/IoDispatch4.v (the dispatch functions of parse/*.rs and fmt/*.rs: which converter for which radix, which path
+# for which length / representation, loop conditions and split points of the divide-and-conquer parser, the length shortcut of
+# the printer's squaring loop, the width formula of the power-of-two printer) as generated Gallina functions
+try:
+    import translate_c07_r4
+    IO_DISPATCH4_STATUS = translate_c07_r4.generate(core.REPO, os.path.join(core.COQ, "gen"))
+except Exception as _ex:
+    IO_DISPATCH4_STATUS = "unparsed generator-failed: %s" % str(_ex)[:200]
 
 
 def extra_phase(tier, seed, exes, oracle):
     word = IO_TABLES_STATUS.split(" ", 1)[0]
     word3 = IO_TABLES3_STATUS.split(" ", 1)[0]
+    word4 = IO_DISPATCH4_STATUS.split(" ", 1)[0]
     return {
         "evaluations": 0,
-        "hist": {"translator_c07:IoTables:" + word: 1, "translator_c07_r3:IoTables3:" + word3: 1},
+        "hist": {"FRAGMENT:translator_c07:IoTables:" + word: 1, "FRAGMENT:translator_c07_r3:IoTables3:" + word3: 1,
+                 "FRAGMENT:translator_c07_r4:IoDispatch4:" + word4: 1},
         "nontrivial": [],
-        "samples": [{"fragment": "coq/gen/IoTables3.v (tools/translate_c07_r3.py from integer/src/fmt/mod.rs, fmt/non_power_two.rs, "
+        "samples": [{"fragment": "coq/gen/IoDispatch4.v (tools/translate_c07_r4.py from integer/src/parse/mod.rs, parse/power_two.rs, "
+                                 "parse/non_power_two.rs, fmt/mod.rs, fmt/power_two.rs, fmt/non_power_two.rs, math.rs)",
+                     "status": IO_DISPATCH4_STATUS,
+                     "tied_by": "C07_dispatch_print_eq, C07_dispatch_parse_eq, C07_dispatch_parse_dc, C07_dispatch_parse_powers, C07_dispatch_fmt_powers, "
+                                "C07_dispatch_p2_width, C07_dispatch_print, C07_dispatch_parse" if word4 == "ok"
+                                else "correspondence run only (source not parsed; previous copy marked STALE)"},
+                    {"fragment": "coq/gen/IoTables3.v (tools/translate_c07_r3.py from integer/src/fmt/mod.rs, fmt/non_power_two.rs, "
                                  "fmt/digit_writer.rs, parse/*.rs, third_party/num_traits.rs, third_party/serde.rs)",
                      "status": IO_TABLES3_STATUS,
                      "tied_by": "C07_fmt_tables, C07_trait_table, C07_inradix_case, C07_layout_literals, C07_debug, C07_third_party_routes, C07_digit_table" if word3 == "ok"
@@ -52,6 +68,22 @@ ORACLE = "c07"
 HARNESS_BIN = "c07"
 NCASES = {"quick": 7000, "thorough": 120000}
 CASE_TIMEOUT = {"quick": 30, "thorough": 120}
+# the same cases on the 64-bit and on the force_bits="32" build: every `ok` answer carries `wb=<bits>`, the oracle runs the
+# word-level and value-level as-is models at exactly that word size (digits per word, chunk lengths, the double-word /
+# array switch and the Debug format differ between the builds)
+CONFIGS = ["default", "w32"]
+if os.environ.get("C07_CONFIGS"):       # sensitivity experiments only
+    CONFIGS = os.environ["C07_CONFIGS"].split(",")
+
+
+def canon_answer(ans):
+    """cross-configuration comparison: the word-size token is dropped; Debug texts (marked `dbg`) show all digits below a
+    DOUBLE word and head..tail of digits_per_word digits above, i.e. they depend on the word size by design - each build's
+    answer is judged against the specification at its own word size, the comparison between builds skips them"""
+    toks = ans.split(" ")
+    if "dbg" in toks:
+        return "ok dbg"
+    return " ".join(t for t in toks if not t.startswith("wb="))
 
 LEVEL_TEXT = ("Machine-checked Coq theorems for all inputs (no size bound; every even word size >= 8 bits that holds the radix, in "
               "particular 16/32/64): the digit specification is the unique positional representation; the radix table is the largest "
@@ -69,17 +101,27 @@ LEVEL_TEXT = ("Machine-checked Coq theorems for all inputs (no size bound; every
               "in the grammar and means its positional value, the rest is NoDigits/InvalidDigit; print-then-parse is the identity "
               "under any decoration; to/from little- and big-endian bytes (own models), two's complement signed bytes, to_chunks and "
               "from_chunks (word loops shl_in_place + add_in_place with the allocation sizes of the code) equal their "
-              "specifications and are mutually inverse on ALL integers.")
+              "specifications and are mutually inverse on ALL integers. Round 4: words_to_chunks / to_chunks at word level (zeroed "
+              "buffers of ceil(chunk_bits/WORD_BITS)+1 words, slice copies, top-word mask, C09's shr_in_place) is total and denotes "
+              "the specification chunks for every normalised word array and chunk width; the Debug printer now contains C12's as-is "
+              "model of log_word_base (proved total within bit length + 1 rounds and exact for EVERY estimate passing the code's "
+              "assertion) instead of a hypothesis on the logarithm; the DISPATCH of parse/*.rs and fmt/*.rs (converter per radix, "
+              "path per length / representation, chunk_bytes, loop and split conditions of the divide-and-conquer parser, the length "
+              "shortcut of the printer's squaring loop, the power-of-two width formula) is REGENERATED as Gallina functions and the "
+              "converters read through them are proved equal to the transcription and to the specification.")
 LEVEL_NOTE = ("Trusted: Coq kernel, extraction incl. FastZ.v directives, zarith, the Rust harness (it also lays the same digits out "
               "with the real Formatter::pad_integral and with u128/i128 formatting). Still by contract / meaning: num-modular's "
               "PreMulInv1by1 and Normalized2by1Divisor primitives inside the C07 word loops (exact division; C02 proves the "
-              "transcribed primitives), log_word_base of the Debug printer (C12's certificate is the hypothesis), comparisons of "
-              "big numbers (C05), the word loops of words_to_chunks (to_chunks is modelled per chunk on Z), shifts inside UBig::pow "
-              "(C09). num-traits Num::from_str_radix is tied by the regenerated route only (the feature is not compiled into the "
-              "harness); the serde string forms are exercised through serde_json. 64-bit words in the correspondence run. "
-              "Pre-repair models of F01-F03 are refuted on their witnesses (C07_F0x_refuted).")
-TECHNIQUE = "Coq proof (word-level and value-level as-is models = spec for all inputs; regenerated tables) + extracted-model correspondence run"
-RULE = ("cases = {format, debug, parse, bytes, chunks, serde} x all 35 radices (+2 invalid) x values/texts whose digit count sits at -1/0/+1 of: "
+              "transcribed primitives), the f32 estimate inside log_word_base (any value passing `assert!(est_pow <= target)`; "
+              "that it passes is C14's log2_bounds), the word-level multiplications inside log_word_base (on Z in C12's model), "
+              "comparisons of big numbers (C05), shifts inside UBig::pow (C09). num-traits Num::from_str_radix is now run (harness "
+              "built with dashu-int's num-traits feature) next to the regenerated route; the serde string forms are exercised "
+              "through serde_json. The correspondence run uses the 64-bit and the force_bits=\"32\" build; the models are "
+              "evaluated at the word size of the answering build. Pre-repair models of F01-F03 are refuted on their witnesses.")
+TECHNIQUE = "Coq proof (word-level and value-level as-is models = spec for all inputs; regenerated tables and dispatch functions) + extracted-model correspondence run on the 64-bit and 32-bit builds"
+RULE = ("every case on BOTH builds (64-bit and force_bits=32 words; a third of the size classes are taken from the 32-bit thresholds: 9 decimal "
+        "digits per word, 144-digit printer chunks, 2304-digit parser chunks, 3 words of 32 bits = array representation, Debug switch at "
+        "2^64); cases = {format, debug, parse, num-traits parse, bytes, chunks, serde} x all 35 radices (+2 invalid) x values/texts whose digit count sits at -1/0/+1 of: "
         "digits_per_word, 2 words, the printer's medium/large switch (16 groups), every doubling of the cached radix powers incl. the "
         "word-count shortcut of the squaring loop (2*len-1 words, as large as possible), the parser's 256-group chunk switch and its "
         "2x/4x/8x divide-and-conquer splits; digit patterns {random, all r-1, 10..0, zero groups}; 88 formatter flag combinations x "
@@ -94,20 +136,24 @@ EXPLANATION = ("Theorems in coq/props/C07.v; every implementation answer is judg
                "(digits_spec, pad_integral_spec, debug_spec, from_str_*_spec, le/be(_signed)_value, to/from_chunks_spec); the extracted "
                "as-is models - value level (fmt_asis, body_asis, byte/chunk models), through the regenerated trait tables "
                "(fmt_tables_asis), word level (fmt_words_asis / body_words_asis over IoWords, IoDword, C01's and C02's models; "
-               "from_chunks_words_z), the DigitWriter model (dw_text) and debug_asis - must all give the same answers (model_fidelity).")
+               "from_chunks_words_z, to_chunks_words_z), the DigitWriter model (dw_text), debug_asis, debug_lwb_asis (C12's log_word_base "
+               "model inside, run from a lowered estimate) and the converters read through the regenerated dispatch (digits_gen, body_gen) - "
+               "must all give the same answers (model_fidelity), at the word size of the answering build (wb= token: 64 and 32).")
 TRUSTED_BASE = [
     "Coq 8.16.1 kernel (coqc); vm_compute only for closed witnesses/examples and for the 256-entry byte table (finite domain, bound stated)",
     "extraction: ExtrOcamlBasic + ExtrOcamlZBigInt + coq/extract/FastZ.v (Z.lor/log2/pow/... -> zarith)",
     "OCaml 4.13.1 + zarith 1.12, oracle/common.ml, oracle/driver_c07.ml; Rust harness harness/src/bin/c07.rs; serde_json for the serde forms",
     "core::fmt (format_args!, Formatter flag accessors, pad_integral used as the reference layout), u128/i128 formatting",
-    "tools/translate_c07.py and tools/translate_c07_r3.py (regular-expression readers and a small expression interpreter for digit_from_ascii_byte): "
-    "an unreadable source falls back to the correspondence run alone (reported as `unparsed` in the evidence)",
-    "num-modular primitives inside the C07 word loops by their contract (exact division); log_word_base by C12's certificate; big comparisons by meaning",
+    "tools/translate_c07.py, tools/translate_c07_r3.py and tools/translate_c07_r4.py (regular-expression readers, a small expression interpreter for "
+    "digit_from_ascii_byte, an expression / if-chain translator for the dispatch functions): an unreadable source falls back to the correspondence run "
+    "alone (reported as `unparsed` in the evidence)",
+    "num-modular primitives inside the C07 word loops by their contract (exact division); the f32 estimate of log_word_base (C14); big comparisons by meaning",
 ]
 ASSUMPTIONS = [
     "UBig::from_words / as_words / IBig::from_parts / as_sign_words transport values faithfully (harness never uses the parser/printer to move values)",
     "texts are valid UTF-8 (the API takes &str); formatter widths stay below 65536 (Rust's limit)",
-    "64-bit words in the correspondence run (the models and theorems are parametric in the word size: any even w >= 8 with w mod 8 = 0 for bytes)",
+    "64-bit and 32-bit words in the correspondence run (the models and theorems are parametric in the word size: any even w >= 8 with w mod 8 = 0 for bytes; "
+    "a 16-bit build does not compile: const evaluation in mul/ntt.rs)",
     "Debug: the bit length of the number fits a machine word (Buffer::MAX_CAPACITY guarantees it)",
     "word-level models are evaluated in the run for magnitudes up to 70000 bits / texts up to 23000 bytes (list-based kernels are slow); longer ones by the value-level models",
 ]
@@ -118,11 +164,17 @@ SPECS_WW = [fl + "w" for fl in SPECS_NW] + [f + al + fl + "w" for f in ["", "*",
 STD_KINDS = ["disp", "bin", "oct", "lhex", "uhex"]
 
 
-def dpw_of(r):
+# word size the size classes of the next case are taken from (gen_cases switches it per case: both builds run every case,
+# two thirds of the cases sit at the thresholds of the 64-bit build, one third at those of the 32-bit build)
+WB = 64
+
+
+def dpw_of(r, bits=None):
+    bits = bits or WB
     if r & (r - 1) == 0:
-        return 64 // (r.bit_length() - 1)
+        return bits // (r.bit_length() - 1)
     d, p = 0, 1
-    while p * r < (1 << 64):
+    while p * r < (1 << bits):
         p *= r
         d += 1
     return d
@@ -368,8 +420,13 @@ def fmt_size_case(rng, tier, huge=False):
     r = rng.choice([2, 3, 4, 5, 7, 8, 9, 10, 10, 10, 11, 16, 32, 35, 36, rng.range(2, 36)])
     if rng.chance(1, 3):
         # by word count (representation classes Small/Large, medium/large switch at 14..16 words)
-        n = rng.choice([0, 1, 2, 2, 3, 3, 4, 13, 14, 15, 16, 17, 31, 32, 33])
-        v = gen_mag(rng, n)
+        nm = 16 * dpw_of(r) // (dpw_of(r) + 1) if r & (r - 1) else 15      # the longest magnitude of the medium printer
+        n = rng.choice([0, 1, 2, 2, 3, 3, 4, 13, 14, 15, 16, 17, 31, 32, 33, nm, nm + 1, nm + 1, nm + 2])
+        v = mag_words(rng, n)
+        if n and rng.chance(1, 2 if n > nm else 4):
+            # as large as n words allow: the most groups of digits_per_word digits a value of that length can have (the bound
+            # behind `len * (digits_per_word + 1) <= CHUNK_LEN * digits_per_word`: one group more than CHUNK_LEN overflows low_groups)
+            v = (1 << (WB * n)) - 1 - rng.choice([0, rng.bits(WB), rng.bits(WB * n // 2)])
     else:
         v = value_with_digits(rng, r, digit_count_classes(rng, r, tier, huge))
     if rng.chance(1, 2):
@@ -390,14 +447,22 @@ _DC_POW = {}
 
 def dc_powers(r, k):
     """[P_0 .. P_k], P_i = r^(16*digits_per_word*2^i): the radix powers the printer caches"""
-    ps = _DC_POW.setdefault(r, [(r ** dpw_of(r)) ** 16])
+    ps = _DC_POW.setdefault((r, WB), [(r ** dpw_of(r)) ** 16])
     while len(ps) <= k:
         ps.append(ps[-1] * ps[-1])
     return ps[:k + 1]
 
 
 def wlen64(v):
-    return (v.bit_length() + 63) // 64
+    return (v.bit_length() + WB - 1) // WB
+
+
+def mag_words(rng, n):
+    """a magnitude of exactly n words of the current word size"""
+    if WB == 64 or n == 0:
+        return gen_mag(rng, n)
+    v = gen_mag(rng, (n + 1) // 2) & ((1 << (32 * n)) - 1)
+    return v | (1 << (32 * n - 1 - rng.below(31))) if v.bit_length() <= 32 * (n - 1) else v
 
 
 def big_below(rng, n):
@@ -408,7 +473,7 @@ def big_below(rng, n):
 def dc_near(rng, p):
     """a value compared with the cached power p: equal, +-1, or - the case a word-count comparison
     cannot tell apart - below p with exactly as many words as p (at every distance)"""
-    lo = 1 << (64 * (wlen64(p) - 1))
+    lo = 1 << (WB * (wlen64(p) - 1))
     k = rng.below(10)
     if k == 0:
         return p
@@ -455,7 +520,7 @@ def dc_quot(rng, ps, j):
     if j < 0:
         # what is left for the top chunk (PreparedMedium): 1 .. P_0 - 1
         p0 = ps[0]
-        return max(1, rng.choice([1, 2, p0 - 1, 1 + big_below(rng, p0 - 1), (1 << (64 * rng.range(0, wlen64(p0) - 1))) - rng.below(2),
+        return max(1, rng.choice([1, 2, p0 - 1, 1 + big_below(rng, p0 - 1), (1 << (WB * rng.range(0, wlen64(p0) - 1))) - rng.below(2),
                                   1 + big_below(rng, 1 << rng.range(1, p0.bit_length() - 1))]))
     p = ps[j]
     k = rng.below(6)
@@ -485,9 +550,9 @@ def dc_value(rng, r, k):
         # exactly 2*len(top) - 1 words: the length shortcut of the squaring loop (`2 * prev.len() - 1 > number.len()`) does not
         # fire, the square must be computed and compared; where top^2 has that many words too the value may lie on either side
         nw = 2 * wlen64(top) - 1
-        hi = (1 << (64 * nw)) - 1
-        return rng.choice([hi, hi - big_below(rng, 1 << rng.range(1, 64 * nw - 1)), (1 << (64 * (nw - 1))) + big_below(rng, 1 << (64 * (nw - 1))),
-                           max(top * top - 1, 1 << (64 * (nw - 1))), min(hi, top * top + big_below(rng, top))])
+        hi = (1 << (WB * nw)) - 1
+        return rng.choice([hi, hi - big_below(rng, 1 << rng.range(1, WB * nw - 1)), (1 << (WB * (nw - 1))) + big_below(rng, 1 << (WB * (nw - 1))),
+                           max(top * top - 1, 1 << (WB * (nw - 1))), min(hi, top * top + big_below(rng, top))])
     return dc_quot(rng, ps, k - 1) * top + dc_rem(rng, ps, k)
 
 
@@ -503,7 +568,7 @@ def fmt_dc_case(rng, tier, deep=False):
         # as far above P_k as it can be: one more squaring is needed, or the top chunk overflows its CHUNK_LEN groups)
         top = dc_powers(r, k)[k]
         nw = 2 * wlen64(top) - 1
-        v = (1 << (64 * nw)) - 1 - rng.choice([0, 1, big_below(rng, 1 << (64 * nw - 3))])
+        v = (1 << (WB * nw)) - 1 - rng.choice([0, 1, big_below(rng, 1 << (WB * nw - 3))])
     if rng.chance(1, 3):
         v = -v
     kind = "disp" if r == 10 and rng.chance(1, 2) else "r%x" % r
@@ -525,12 +590,12 @@ def fmt_flag_case(rng, tier):
     r = {"disp": 10, "bin": 2, "oct": 8, "lhex": 16, "uhex": 16}.get(kind) or int(kind[1:], 16)
     k = rng.below(10)
     if k < 5:
-        v = rng.choice([0, 1, r - 1, r, 255, 256, (1 << 63) - 1, 1 << 63, (1 << 64) - 1, 1 << 64, (1 << 127) - 1, 1 << 127, (1 << 128) - 1, 1 << 128,
-                        rng.bits(rng.range(1, 128))])
+        v = rng.choice([0, 1, r - 1, r, 255, 256, (1 << 31) - 1, 1 << 31, (1 << 32) - 1, 1 << 32, (1 << 63) - 1, 1 << 63, (1 << 64) - 1, 1 << 64,
+                        (1 << 127) - 1, 1 << 127, (1 << 128) - 1, 1 << 128, rng.bits(rng.range(1, 128))])
     elif k < 9:
-        v = gen_mag(rng, rng.choice([1, 2, 3, 4, 5]))
+        v = mag_words(rng, rng.choice([1, 2, 3, 4, 5]))
     else:
-        v = gen_mag(rng, rng.choice([14, 15, 16, 17, 20]))
+        v = mag_words(rng, rng.choice([14, 15, 16, 17, 20]))
     neg = rng.chance(1, 2)
     ty = rng.choice("ui")
     spec = rng.choice(SPECS_WW) if rng.chance(7, 8) else rng.choice(SPECS_NW)
@@ -574,11 +639,13 @@ def bytes_case(rng, tier):
 
 
 def chunks_case(rng, tier):
-    widths = [1, 2, 3, 7, 8, 9, 31, 32, 33, 63, 64, 65, 100, 127, 128, 129, 191, 192, 193, 200, 256, 320, rng.range(1, 300)]
+    widths = [1, 2, 3, 7, 8, 9, 31, 32, 33, 63, 64, 65, 95, 96, 97, 100, 127, 128, 129, 159, 160, 161, 191, 192, 193, 200, 256, 320, rng.range(1, 300)]
     if rng.chance(3, 5):
-        v = abs(gen_int(rng, tier)) if rng.chance(2, 3) else gen_mag(rng, rng.choice([1, 2, 3, 3, 4, 5, 6])) >> rng.below(64)
+        v = abs(gen_int(rng, tier)) if rng.chance(2, 3) else mag_words(rng, rng.choice([1, 2, 3, 3, 4, 5, 6, 7, 9])) >> rng.below(WB)
         nb = v.bit_length()
-        cb = rng.choice(widths + [max(1, nb - 1), max(1, nb), nb + 1, max(1, nb // 2), max(1, nb // 2 + 1), max(1, nb // 3)])
+        # also: the last window ends exactly on a word boundary / one bit before and after it; a window of ceil(cb / W) + 1 words
+        cb = rng.choice(widths + [max(1, nb - 1), max(1, nb), nb + 1, max(1, nb // 2), max(1, nb // 2 + 1), max(1, nb // 3),
+                                  WB * rng.range(1, 4) + rng.choice([-1, 1, WB // 2, WB - 2]), max(1, (nb // WB) * WB // 2)])
         if nb // cb > 1500:
             cb = max(cb, nb // 1500)
         if rng.chance(1, 60):
@@ -605,38 +672,41 @@ DBG_SPECS_WW = [".w", ".0w", ".#0w", ".+w", ".<w", ".*^+#w", ".*>#w"]
 
 
 def dbg_value(rng, tier):
-    """magnitudes around the Debug printer's switches: one word, double word (all digits), >= 2^128 (19 + 19 digits);
-    head / tail digit patterns (9..9, 10..0, zeros at the start of the tail), exact powers of ten, word boundaries"""
+    """magnitudes around the Debug printer's switches: one word, double word (all digits), >= a double word (D + D digits,
+    D = digits_per_word(10): 19 on 64-bit words, 9 on 32-bit words); head / tail digit patterns (9..9, 10..0, zeros at the
+    start of the tail), exact powers of ten, word boundaries - at the word size WB of this case"""
+    W = WB
+    D = dpw_of(10)
     k = rng.below(14)
     if k == 0:
-        return rng.choice([0, 1, 9, 10, (1 << 63), (1 << 64) - 1, 1 << 64, (1 << 64) + 1, (1 << 127), (1 << 128) - 1, 1 << 128, (1 << 128) + 1,
-                           10 ** 19 - 1, 10 ** 19, 10 ** 38 - 1, 10 ** 38, 10 ** 38 + 1, 10 ** 39 - 1, 10 ** 39])
+        return rng.choice([0, 1, 9, 10, (1 << (W - 1)), (1 << W) - 1, 1 << W, (1 << W) + 1, (1 << (2 * W - 1)), (1 << (2 * W)) - 1, 1 << (2 * W),
+                           (1 << (2 * W)) + 1, 10 ** D - 1, 10 ** D, 10 ** (2 * D) - 1, 10 ** (2 * D), 10 ** (2 * D) + 1, 10 ** (2 * D + 1) - 1, 10 ** (2 * D + 1)])
     if k == 1:
-        e = rng.choice([38, 39, 40, 41, 57, 58, 76, 77, 78, rng.range(38, 400)])
-        return 10 ** e + rng.choice([-1, 0, 1, 10 ** 19 - 1, 10 ** 19, 10 ** 18, rng.below(10 ** 19)])
+        e = rng.choice([2 * D, 2 * D + 1, 2 * D + 2, 2 * D + 3, 3 * D, 3 * D + 1, 4 * D, 4 * D + 1, 4 * D + 2, rng.range(2 * D, 400)])
+        return 10 ** e + rng.choice([-1, 0, 1, 10 ** D - 1, 10 ** D, 10 ** (D - 1), rng.below(10 ** D)])
     if k == 2:
         # head 99..9 / 100..0 with an arbitrary tail: the one Knuth step at its extremes
-        e = rng.range(39, 200)
-        head = rng.choice([10 ** 19 - 1, 10 ** 18, 10 ** 18 + 1, 10 ** 19 - 2, rng.range(10 ** 18, 10 ** 19 - 1)])
-        return head * 10 ** (e - 18) + rng.choice([0, 1, 10 ** (e - 18) - 1, rng.below(10 ** (e - 18))])
+        e = rng.range(2 * D + 1, 200)
+        head = rng.choice([10 ** D - 1, 10 ** (D - 1), 10 ** (D - 1) + 1, 10 ** D - 2, rng.range(10 ** (D - 1), 10 ** D - 1)])
+        return head * 10 ** (e - D + 1) + rng.choice([0, 1, 10 ** (e - D + 1) - 1, rng.below(10 ** (e - D + 1))])
     if k == 3:
         # tail with leading zeros
-        hi = rng.bits(rng.range(70, 400)) + (1 << 70)
-        return hi * 10 ** 19 + rng.choice([0, 1, 9, 10 ** 18 - 1, 10 ** 18, rng.below(10 ** rng.range(1, 19))])
+        hi = rng.bits(rng.range(W + 6, 400)) + (1 << (W + 6))
+        return hi * 10 ** D + rng.choice([0, 1, 9, 10 ** (D - 1) - 1, 10 ** (D - 1), rng.below(10 ** rng.range(1, D))])
     if k == 4:
-        # word boundaries of the number and of the divisor 10^(digits-19)
+        # word boundaries of the number and of the divisor 10^(digits-D)
         n = rng.choice([2, 3, 3, 4, 5, 8, 16, 33])
-        return (1 << (64 * n)) + rng.choice([-1, 0, 1])
+        return (1 << (W * n)) + rng.choice([-1, 0, 1])
     if k == 5:
-        return gen_mag(rng, rng.choice([3, 3, 4, 5, 6, 7, 8, 15, 16, 17, 31, 32, 33, 64]))
+        return mag_words(rng, rng.choice([3, 3, 4, 5, 6, 7, 8, 15, 16, 17, 31, 32, 33, 64]))
     if k == 6 and tier == "thorough":
         return gen_mag(rng, rng.choice([100, 257, 600, 1500]))
     if k == 7:
-        return rng.bits(rng.range(1, 128))
+        return rng.bits(rng.range(1, 2 * W))
     if k == 8:
-        return (1 << 128) + rng.bits(rng.range(1, 128))
+        return (1 << (2 * W)) + rng.bits(rng.range(1, 2 * W))
     if k == 9:
-        return gen_mag(rng, rng.choice([1, 2, 2]))
+        return mag_words(rng, rng.choice([1, 2, 2]))
     return abs(gen_int(rng, tier))
 
 
@@ -667,8 +737,10 @@ def gen_cases(rng, tier, n):
     out = byte_sweep(rng.fork("bytes") if hasattr(rng, "fork") else rng, tier)
     nhuge = 0
     max_huge = 200 if tier == "quick" else 3000
+    global WB
     while len(out) < n:
         k = rng.below(100)
+        WB = 32 if rng.chance(1, 3) else 64
         huge = False
         if rng.chance(1, 40) and nhuge < max_huge:
             huge = True
@@ -682,9 +754,16 @@ def gen_cases(rng, tier, n):
         elif k < 46:
             out.append(fmt_size_case(rng, tier, huge))
         elif k < 68:
-            out.append(parse_case(rng, tier, huge))
+            c = parse_case(rng, tier, huge)
+            if rng.chance(1, 12) and c.split(" ")[1] in ("ur", "ir"):
+                # the same text through num_traits::Num::from_str_radix (third_party/num_traits.rs)
+                c = "numtr %s %s" % (c.split(" ")[1][0], c.split(" ", 2)[2])
+            out.append(c)
         elif k < 80:
-            out.append(malformed_case(rng, tier))
+            c = malformed_case(rng, tier)
+            if rng.chance(1, 12) and c.split(" ")[1] in ("ur", "ir"):
+                c = "numtr %s %s" % (c.split(" ")[1][0], c.split(" ", 2)[2])
+            out.append(c)
         elif k < 90:
             out.append(bytes_case(rng, tier))
         elif k < 96:
@@ -696,4 +775,5 @@ def gen_cases(rng, tier, n):
             out.append("tostr %s %s" % (rng.choice("ui"), hx(gen_int(rng, tier))))
         else:
             out.append("fmt %s r%x . 0 %s" % (rng.choice("ui"), rng.choice([0, 1, 37, 100]), hx(gen_int(rng, tier))))
+    WB = 64
     return out
